@@ -624,6 +624,10 @@ func tablesStream(r *runner, rng *rand.Rand) error {
 		}
 	}
 	r.sum.Extra["fresh_process_runs"] = runs
+
+	// 5. other build targets, executed: alias resolution must not depend on the target (linux/386 natively,
+	// js/wasm under node; see constsRunWasm)
+	constsRunWasm(r)
 	return nil
 }
 
